@@ -238,6 +238,10 @@ func (c *Context) ask(system bool, recipient vivid.ActorRef, message vivid.Messa
 		c.system.removeFuture(agentRef)
 	})
 	c.system.appendFuture(agentRef, futureIns)
+	if futureIns.IsClosed() {
+		// 超时定时器在创建 Future 时即已启动，若其在登记之前触发，closer 的注销先于登记执行，此处需补偿注销以免泄漏
+		c.system.removeFuture(agentRef)
+	}
 
 	envelop := mailbox.NewEnvelop(system, agentRef.ref, recipient, message)
 	receiverMailbox := c.system.findMailbox(recipient.(*Ref))
